@@ -586,7 +586,8 @@ def spherematch(ra1, dec1, ra2, dec2, matchlength, chunksize=None,
     matchlength : :class:`float`
         Two points closer than this separation are matched. Assumed to be in decimal degrees.
     chunksize : :class:`float`, optional
-        Value to pass to chunk assignment.
+        Value to pass to chunk assignment.  As in :func:`spheregroup`,
+        `chunksize` >= 4 * `matchlength` is enforced.
     maxmatch : :class:`int`, optional
         Allow up to `maxmatch` matches per coordinate.  Default 1. If set to zero,
         All possible matches will be returned.
@@ -609,7 +610,11 @@ def spherematch(ra1, dec1, ra2, dec2, matchlength, chunksize=None,
     #
     # Set default values
     #
-    if chunksize is None:
+    if chunksize is not None:
+        if chunksize < 4.0*matchlength:
+            chunksize = 4.0*matchlength
+            warn("chunksize changed to {0:.2f}.".format(chunksize), PydlutilsUserWarning)
+    else:
         chunksize = max(4.0*matchlength, 0.1)
     #
     # Check input size
